@@ -236,6 +236,50 @@ def d5_ets(facts, rep):
                key_extra=fn.q[-30:])
     if not nlook:
         raise AnalysisBroken('ets_base::table_lookup (hashed) not instantiated')
+    # An element becomes visible to size(), iteration, combine() and combine_each() when it is appended to my_locals.  The
+    # user's initialiser / copy / move runs after that append.  If it throws, the appended slot stays (a concurrent_vector
+    # cannot shrink concurrently), is visited although it was never constructed, and the thread's retry creates a second slot.
+    # Rule (K9): in the create_local* functions no user operation follows the append (grow_by) outside a try block.
+    from rules.common import MayThrow, user_op
+    mt = MayThrow(facts, external_may_throw=False)
+    ncl = 0
+    seen_cl = set()
+    for fn in facts.fns.values():
+        if 'enumerable_thread_specific::create_local' not in fn.p:
+            continue
+        gb = calls_named(fn, ('grow_by',))
+        if not gb:
+            continue
+        bad = []
+        for pos, sx, node, d in gb:
+            reached, ex, par = fn.walk(pos)
+            for q in reached:
+                if q == pos:
+                    continue
+                e = fn.elems(q[0])[q[1]]
+                if not isinstance(e, int) or fn.nodes[e].get('k') not in ('call', 'ctor', 'new'):
+                    continue
+                nd = fn.nodes[e]
+                if nd.get('tr') is not None:
+                    continue
+                throws = mt.node(fn, e)
+                if not throws and nd.get('k') == 'call' and nd.get('virt'):
+                    u = nd.get('fn')
+                    throws = any(mt.fn(o) for o in facts.overriders(u))
+                if throws:
+                    bad.append(nd.get('ln'))
+        key = fn.p
+        ent = (fn, bad)
+        if key in seen_cl:
+            continue
+        seen_cl.add(key)
+        ncl += 1
+        rep.ob('D5', 'K9', fn, 'no user operation runs between appending the element to my_locals and marking it built (%s)' % fn.p.split('::')[-1], not bad,
+               'the initialiser / copy at line(s) %s runs after the slot was appended and is not guarded: if it throws, the never-constructed '
+               'slot stays visible to size(), iteration and combine(), and the thread\'s next access appends a second slot' % sorted(set(bad)),
+               key_extra=fn.p)
+    if ncl < 2:
+        raise AnalysisBroken('enumerable_thread_specific::create_local*: %d functions found' % ncl)
     # plain stores to my_root/my_count only in non-concurrent functions
     allowed = ('table_clear', 'table_elementwise_copy', 'table_swap', '(ctor)', '(dtor)', 'swap_atomics_relaxed')
     for fn in facts.fns.values():
